@@ -341,15 +341,17 @@ def zoo_expr(rng):
     return w % base
 
 
-def gen_item(rng, tier):
-    # the hub is 3.12: generated programs use only syntax every producer (3.7+) accepts
+def gen_item(rng, tier, ver="3.7"):
+    # the hub is 3.12 and only writes program TEXT: syntax is gated by the version of the producer that will
+    # compile it (positional-only parameters and walrus from 3.8, match from 3.10)
+    vt = tuple(int(x) for x in ver.split("."))
     kind = rng.weighted([("gen", 4), ("tmpl", 5), ("corpus", 2), ("stdlib", 0 if tier == "quick" else 1)])
     if kind == "gen":
         size = rng.weighted([("small", 8), ("medium", 2 if tier == "quick" else 4)])
-        src = workload.Gen(rng.fork("gen"), (3, 7), size).program()
+        src = workload.Gen(rng.fork("gen"), vt, size).program()
         prog = {"kind": "gen", "name": "gen-" + size, "src": src}
     elif kind == "tmpl":
-        prog = {"kind": "tmpl", "name": "tmpl", "src": workload.template_source(rng, (3, 7))}
+        prog = {"kind": "tmpl", "name": "tmpl", "src": workload.template_source(rng, vt)}
     elif kind == "corpus":
         items = workload.corpus_items(hubutil.scratch_tree())
         cap = 20000 if tier == "quick" else 200000
@@ -405,8 +407,9 @@ def gen_exchange_plan(seed, tier, prop):
     nprod = rng.choice([1, 1, 2, 3])
     producers = []
     for _ in range(nprod):
-        producers.append({"ver": rng.choice(hubutil.OLD), "hashseed": rng.randint(0, 2 ** 32 - 1),
-                          "items": [gen_item(rng, tier) for _ in range(rng.choice([1, 1, 2]))]})
+        pv = rng.choice(hubutil.OLD)
+        producers.append({"ver": pv, "hashseed": rng.randint(0, 2 ** 32 - 1),
+                          "items": [gen_item(rng, tier, pv) for _ in range(rng.choice([1, 1, 2]))]})
     docs = []
     for pi, p in enumerate(producers):
         for ii in range(len(p["items"])):
@@ -524,6 +527,8 @@ def exec_exchange(plan, tree, prop, log=None):
                 log.count("docs_with_nan")
             if '{"string":' in D:
                 log.count("docs_with_surrogate_string")
+            if '"positional_only"' in D:
+                log.count("docs_with_positional_only_args")
             if want_c07:
                 where = "producer %s doc%s" % (pver, " (normalized)" if tag else "")
                 if monitors_c07(log, D, st, where):
@@ -648,7 +653,8 @@ def gen_cli_plan(seed, tier):
         if "\r" in src or "\x00" in src:
             src = "def f(a, *b):\n    'doc'\n    return a in {1, None}\n"
     plan = {"kind": "cli", "ver": ver, "hashseed": hs, "oracle_hashseed": hs if same_seed else rng.randint(0, 2 ** 32 - 1), "flags": flags,
-            "source_kind": kind, "src": src, "module": rng.choice(CLI_MODULES) if kind == "m" else None, "warm": rng.chance(0.25), "warm_n": rng.randint(2, 3)}
+            "source_kind": kind, "src": src, "module": (rng.choice(CLI_MODULES) if rng.chance(0.5) else rng.choice(["custom:cookie", "custom:pyc", "custom:zip"])) if kind == "m" else None,
+            "warm": rng.chance(0.3), "warm_n": rng.randint(2, 3), "warm_other": {k: rng.chance(0.5) for k in OUT_FLAGS}}
     if kind == "file" and not invalid and rng.chance(0.35):
         # durable state between invocations: the SAME path is rewritten with another program of the same
         # size and (simulated clock) the same modification time, then inspected again
@@ -704,12 +710,41 @@ def cli_argv(plan, workdir):
         expr = " + linesep + ".join(repr(line) for line in src.split("\n"))
         expected_src = os.linesep.join(src.split("\n"))
         return out + ["-e", expr], {"source_kind": "e", "source": expected_src, "filename": "<string>", "flags": flags}
-    return out + ["-m", plan["module"]], {"source_kind": "m", "module": plan["module"], "flags": flags}
+    mod = plan["module"]
+    if mod.startswith("custom:"):
+        # modules whose loader is not "a UTF-8 .py file on the path": encoding cookie, source-less .pyc, inside a zip
+        mdir = os.path.join(workdir, "mods")
+        os.makedirs(mdir, exist_ok=True)
+        body = "def zz_f(a, b=2):\n    'doc'\n    return (a, b, %r)\nZZ = zz_f(1)\n"
+        extra = [mdir]
+        if mod == "custom:cookie":
+            name = "zz_cookie_mod"
+            with open(os.path.join(mdir, name + ".py"), "wb") as f:
+                f.write(("# -*- coding: latin-1 -*-\n" + body % "caf\xe9 \xfc").encode("latin-1"))
+        elif mod == "custom:pyc":
+            name = "zz_pyc_only_mod"
+            srcp = os.path.join(mdir, name + ".py")
+            with open(srcp, "w", encoding="utf-8") as f:
+                f.write(body % "sourceless")
+            subprocess.run([hubutil.INTERPRETERS[plan["ver"]], "-c", "import py_compile,sys; py_compile.compile(sys.argv[1], cfile=sys.argv[2], doraise=True)",
+                            srcp, os.path.join(mdir, name + ".pyc")], check=True, stdout=subprocess.DEVNULL, stderr=subprocess.DEVNULL, timeout=60)
+            os.remove(srcp)
+        else:
+            import zipfile
+
+            name = "zz_zipped_mod"
+            zp = os.path.join(mdir, "bundle.zip")
+            with zipfile.ZipFile(zp, "w") as z:
+                z.writestr(name + ".py", body % "zipped")
+            extra = [zp]
+        return out + ["-m", name], {"source_kind": "m", "module": name, "flags": flags, "extra_path": extra}
+    return out + ["-m", mod], {"source_kind": "m", "module": mod, "flags": flags}
 
 
-def run_cli_process(ver, hashseed, argv, tree, cwd):
+def run_cli_process(ver, hashseed, argv, tree, cwd, extra_path=()):
     env = hubutil.worker_env(hashseed, tree)
-    env["PYTHONPATH"] = tree + os.pathsep + os.path.join(hubutil.VERIF, "shims")
+    env["PYTHONPATH"] = os.pathsep.join([tree, os.path.join(hubutil.VERIF, "shims")] + list(extra_path))
+    env["PYTHONDONTWRITEBYTECODE"] = "" 
     cmd = hubutil.no_aslr_prefix() + [hubutil.INTERPRETERS[ver], "-c", "from code_data._cli import main; main()"] + argv
     try:
         p = subprocess.run(cmd, stdout=subprocess.PIPE, stderr=subprocess.PIPE, env=env, cwd=cwd, timeout=120)
@@ -821,9 +856,12 @@ def exec_cli(plan, tree, log=None):
     cl = Cluster(tree)
     try:
         argv, oracle_req = cli_argv(plan, workdir)
-        status, stdout, stderr = run_cli_process(plan["ver"], plan["hashseed"], argv, tree, workdir)
+        extra_path = (oracle_req or {}).get("extra_path", [])
+        status, stdout, stderr = run_cli_process(plan["ver"], plan["hashseed"], argv, tree, workdir, extra_path)
         log.messages += 1
         inv = plan.get("invalid")
+        if plan.get("module") and str(plan["module"]).startswith("custom:") and plan["source_kind"] == "m" and "sources" not in plan:
+            log.count("fault_module_with_unusual_loader_" + plan["module"].split(":")[1])
         log.count("cli_invocations")
         log.count("cli_source_" + (inv and "invalid:" + inv or plan["source_kind"]))
         log.event("cli", plan["ver"], [a.replace(workdir, "<wd>") for a in argv[:6]], status, len(stdout.replace(workdir, "<wd>")))
@@ -907,7 +945,7 @@ def exec_cli(plan, tree, log=None):
                 if not exp2["ok"]:
                     log.count("rewrite_variant_declined")
                     break
-                st2, out2, err2 = run_cli_process(plan["ver"], plan["hashseed"], argv, tree, workdir)
+                st2, out2, err2 = run_cli_process(plan["ver"], plan["hashseed"], argv, tree, workdir, extra_path)
                 log.messages += 1
                 log.count("fault_rewrite_same_path")
                 if rw["same_mtime"] and len(nxt.encode("utf-8")) == len(cur.encode("utf-8")):
@@ -923,11 +961,31 @@ def exec_cli(plan, tree, log=None):
         # L5: warm re-invocation == fresh processes
         if plan.get("warm"):
             warm = cl.get("warm", plan["ver"], plan["hashseed"])
-            r = warm.call("cli_warm", {"argvs": [argv] * plan["warm_n"], "cwd": workdir})
-            log.count("fault_warm_reinvocation", plan["warm_n"])
-            for i, o in enumerate(r["outs"]):
-                if o["status"] != 0 or compare_outputs(o["stdout"], exp["sections"]) is not None:
-                    log.violate("C16", "L5-warm-invocation-differs", "invocation-%d" % (i + 1) if i < 1 else "invocation-n", {"status": o["status"], "argv": argv[:8]})
+            # a DIFFERENT invocation in between (other flags, another kind of source): parser/namespace state
+            # left behind by one main() call must not leak into the next
+            other_flags = plan.get("warm_other") or {}
+            argv_b = ["--" + k.replace("_", "-") for k in OUT_FLAGS if other_flags.get(k)]
+            if plan["source_kind"] == "c" or "sources" in plan:
+                opath = os.path.join(workdir, "other.py")
+                with open(opath, "w", encoding="utf-8") as f:
+                    f.write("zz_other = (1, 'b')\n")
+                argv_b += [opath]
+                req_b = {"source_kind": "file", "source": "zz_other = (1, 'b')\n", "filename": opath, "flags": other_flags}
+            else:
+                argv_b += ["-c", "zz_other = (1, 'b')"]
+                req_b = {"source_kind": "c", "source": "zz_other = (1, 'b')", "filename": "<string>", "flags": other_flags}
+            exp_b = oracle.call("cli_expect", req_b)
+            seq = [argv] * plan["warm_n"]
+            want = [exp] * plan["warm_n"]
+            if exp_b.get("ok"):
+                seq = [argv, argv_b] + [argv] * (plan["warm_n"] - 1)
+                want = [exp, exp_b] + [exp] * (plan["warm_n"] - 1)
+                log.count("fault_warm_sequence_with_other_invocation")
+            r = warm.call("cli_warm", {"argvs": seq, "cwd": workdir, "extra_path": extra_path})
+            log.count("fault_warm_reinvocation", len(seq))
+            for i, (o, w_exp) in enumerate(zip(r["outs"], want)):
+                if o["status"] != 0 or compare_outputs(o["stdout"], w_exp["sections"]) is not None:
+                    log.violate("C16", "L5-warm-invocation-differs", "invocation-%d" % (i + 1) if i < 1 else "invocation-n", {"status": o["status"], "argv": [a.replace(workdir, "<wd>") for a in seq[i][:8]]})
                     return log
         return log
     finally:
